@@ -12,8 +12,8 @@ import (
 func init() {
 	register("C30", []string{"./internal/arenaskl"}, runC30)
 	register("C34", []string{"./internal/cache"}, runC34)
-	propExplain["C30"] = "Decides the publication-order clause of C30 in arenaskl.Skiplist.addInternal: the new node is fully built (newNode) and, at every level, its tower links are initialised before the CAS on the predecessor's next pointer can publish it; the back-pointer CAS of the successor happens only after that publishing CAS succeeded; outside initialisation the link words are modified only by compare-and-swap; the list height only by CAS (and Reset). Does not decide the interleavings themselves (model checking)."
-	propExplain["C34"] = "Decides structural clauses of C34 in the block cache: a value's memory is freed only by Value.Release on the edge where the reference count dropped to zero (and by the owner-only Free); an entry's value is read-and-referenced (acquireValue) only with the shard mutex held (read or write) and replaced (setValue) only with it write-held, established by a lockset over the cache package with requires-held summaries; a read entry publishes its value/error before it wakes the waiters. (P1) the reference-counted read entry obtained on a miss is released or handed to the caller in the ReadHandle on every path of GetWithReadHandle. Does not decide 'latest value for the exact key' or capacity accounting (value-level)."
+	propExplain["C30"] = "Decides the publication-order clause of C30 in arenaskl.Skiplist.addInternal: the new node is fully built (newNode) and, at every level, its tower links are initialised before the CAS on the predecessor's next pointer can publish it; the back-pointer CAS of the successor happens only after that publishing CAS succeeded; outside initialisation the link words are modified only by compare-and-swap; the list height only by CAS (and Reset). (O2) a stale back pointer is repaired only where prev's forward pointer was re-read after next's back pointer and still names next (the helping CAS of addInternal). Does not decide the interleavings themselves (model checking)."
+	propExplain["C34"] = "Decides structural clauses of C34 in the block cache: a value's memory is freed only by Value.Release on the edge where the reference count dropped to zero (and by the owner-only Free); an entry's value is read-and-referenced (acquireValue) only with the shard mutex held (read or write) and replaced (setValue) only with it write-held, established by a lockset over the cache package with requires-held summaries; a read entry publishes its value/error before it wakes the waiters. (P1) the reference-counted read entry obtained on a miss is released or handed to the caller in the ReadHandle on every path of GetWithReadHandle. The outcome of a read is stored in the entry on every path of setReadValue / setReadError, not only when a waiter is already parked. Does not decide 'latest value for the exact key' or capacity accounting (value-level)."
 	propTechnique["C30"] = "SSA ordering dataflow inside the CAS loop, who-may-write on atomic fields"
 	propTechnique["C34"] = "who-may-call, SSA guard, lockset with requires-held summaries over the cache package"
 }
@@ -51,6 +51,43 @@ func runC30(c *Ctx) {
 			}
 			ok := res.stateBefore(in).has("published")
 			c.Ob("C30.O1", fn, "successor's back pointer set to the new node only after the publishing CAS succeeded", c.P.Pos(in.Pos()), ok, "")
+		}
+	}
+	// O2: the HELPING CAS. When next's back pointer does not name prev, either next's inserter has
+	// not written it yet, or a node was linked between prev and next. addInternal repairs the back
+	// pointer only in the first case, which it recognises by re-reading prev's forward pointer AFTER
+	// it read next's back pointer ("publication safety") and finding it still equal to next. A
+	// repair on any other evidence can overwrite the correct back link of a node linked in between:
+	// backward iteration then skips nodes for good.
+	if fn := c.Fn("C30.O2", "skl.(*Skiplist).addInternal"); fn != nil {
+		casPrev := CallTo("skl.(*node).casPrevOffset")
+		fwdLoad := CallTo("skl.(*node).nextOffset")
+		backLoad := CallTo("skl.(*node).prevOffset")
+		helping := And(casPrev, Pred("new value is prev's offset (not the new node)", func(in ssa.Instruction) bool {
+			args := in.(*ssa.Call).Common().Args
+			return len(derivesFrom(args[len(args)-1], func(v ssa.Value) bool { return strings.Contains(pathOf(v), "newNode()") }, 5)) == 0
+		}))
+		fl := NewFlow(c.P).
+			After("back-pointer-read", backLoad).
+			Edge("prev-still-points-to-next", func(v ssa.Value) (bool, bool) {
+				bo, ok := v.(*ssa.BinOp)
+				if !ok || (bo.Op != token.EQL && bo.Op != token.NEQ) {
+					return false, false
+				}
+				isFwd := func(x ssa.Value) bool { call, ok := x.(*ssa.Call); return ok && fwdLoad.F(call) }
+				if isFwd(bo.X) == isFwd(bo.Y) {
+					return false, false
+				}
+				return true, bo.Op == token.NEQ
+			}).
+			IterationLocal("back-pointer-read", "prev-still-points-to-next")
+		fl.MaxDepth = 0
+		res := fl.Analyze(fn, emptyState())
+		c.noteFlow(fl)
+		n := c.Require("C30.O2", res, helping, "a stale back pointer is repaired only where prev's forward pointer was re-read and still names next", []string{"prev-still-points-to-next"})
+		n2 := c.Require("C30.O2", res, fwdLoad, "prev's forward pointer is re-read after next's back pointer (publication safety)", []string{"back-pointer-read"})
+		if n == 0 || n2 == 0 {
+			c.Unresolved("C30.O2", "helping casPrevOffset / nextOffset re-read not found in addInternal")
 		}
 	}
 	// T1: sibling agreement on the trailer order. Internal keys with equal user keys sort by
@@ -255,6 +292,9 @@ func runC34(c *Ctx) {
 			}
 			return false
 		}))
+		// the result is published on EVERY path, not only when somebody is already waiting: a
+		// requester that holds the entry but has not parked yet reads it later
+		c.Require("C34.O1", res, AnyReturn, "the read's outcome is stored in the entry on every path (late requesters read it)", need[1:])
 		k := c.Require("C34.O1", res, wake, "waiters are woken only after the result was stored, under the entry mutex", need)
 		if k == 0 {
 			c.Unresolved("C34.O1", "no channel wake-up found in "+spec.name)
